@@ -59,7 +59,15 @@ fn build(kind: Kind, target_b: bool, prefixing: Prefixing, user_first: bool, dec
         complex("Thing", vec![el("MarkTypeA", TypeRef::b("string"))])
     };
     // B's Thing has a member typed by B's own `Part`; A declares a `Part` as well
-    let type_b = complex("Thing", vec![el("MarkTypeB", TypeRef::b("string")), el("MarkTypeB2", TypeRef::b("int")), el("UsesPart", TypeRef::n(NS_B, "Part"))]);
+    // (under Default prefixing B refers to its own components WITHOUT a prefix, through xmlns="B")
+    let own_b = |local: &str| {
+        let mut q = QName::new(NS_B, local);
+        if prefixing == Prefixing::Default {
+            q.prefer = Some(String::new());
+        }
+        q
+    };
+    let type_b = complex("Thing", vec![el("MarkTypeB", TypeRef::b("string")), el("MarkTypeB2", TypeRef::b("int")), el("UsesPart", TypeRef::Named(own_b("Part")))]);
     let part_a = complex("Part", vec![el("MarkPartA", TypeRef::b("string"))]);
     let part_b = complex("Part", vec![el("MarkPartB", TypeRef::b("long"))]);
     // `idiom`: the element is an instance of the type of the same name (element name="Thing" type="a:Thing")
@@ -78,7 +86,7 @@ fn build(kind: Kind, target_b: bool, prefixing: Prefixing, user_first: bool, dec
         ..Default::default()
     });
     // B uses its own Thing through its own prefix (tns in the clash situation)
-    let uses_own_b = complex("UsesOwnB", vec![el("OwnThing", TypeRef::n(NS_B, "Thing")), Particle::Ref(ElemRef { target: QName::new(NS_B, "Thing"), min: 0, max: Max::N(1) })]);
+    let uses_own_b = complex("UsesOwnB", vec![el("OwnThing", TypeRef::Named(own_b("Thing"))), Particle::Ref(ElemRef { target: own_b("Thing"), min: 0, max: Max::N(1) })]);
     s.files[1].comps.extend([part_b, type_b, elem_b, uses_own_b]);
     let tns = if target_b { NS_B } else { NS_A };
     let mut q = QName::new(tns, "Thing");
@@ -135,6 +143,53 @@ fn xsd_states() -> Vec<(State, Vec<(&'static str, String)>)> {
     out
 }
 
+/// Two referrers of different kinds to ONE name in one file: `RefUser` holds ref="a:Thing" (the
+/// global element), `BaseUser` extends a:Thing (the type); every declaration order of the four
+/// components, the element being of the type of the same name or of an anonymous type.
+fn two_referrer_states() -> Vec<(State, Vec<(&'static str, String)>)> {
+    let mut out = vec![];
+    let perms: Vec<Vec<usize>> = {
+        fn rec(cur: &mut Vec<usize>, used: &mut [bool; 4], out: &mut Vec<Vec<usize>>) {
+            if cur.len() == 4 {
+                out.push(cur.clone());
+                return;
+            }
+            for i in 0..4 {
+                if !used[i] {
+                    used[i] = true;
+                    cur.push(i);
+                    rec(cur, used, out);
+                    cur.pop();
+                    used[i] = false;
+                }
+            }
+        }
+        let mut o = vec![];
+        rec(&mut vec![], &mut [false; 4], &mut o);
+        o
+    };
+    for idiom in [true, false] {
+        for perm in &perms {
+            let mut s = s0();
+            s.files[0].comps.clear();
+            let type_a = complex("Thing", vec![el("MarkTypeA", TypeRef::b("string"))]);
+            let elem_a = if idiom { typed_element("Thing", TypeRef::n(NS_A, "Thing")) } else { anon_element("Thing", vec![el("MarkElemA", TypeRef::b("string"))]) };
+            let ref_user = complex("User", vec![Particle::Ref(ElemRef { target: QName::new(NS_A, "Thing"), min: 1, max: Max::N(1) }), el("UserMark", TypeRef::b("string"))]);
+            let base_user = Comp::Complex(ComplexType { name: "BaseUser".into(), base: Some(QName::new(NS_A, "Thing")), seq: Some(Seq::of(vec![el("BaseUserMark", TypeRef::b("string"))])), ..Default::default() });
+            let comps = [ref_user, base_user, elem_a, type_a];
+            let names = ["ref-user", "base-user", "element", "type"];
+            for i in perm {
+                s.files[0].comps.push(comps[*i].clone());
+            }
+            let order: Vec<&str> = perm.iter().map(|i| names[*i]).collect();
+            let label = format!("two referrers (ref= and base=) to Thing, declared in the order {}, element Thing {}", order.join(" "), if idiom { "of type Thing" } else { "of an anonymous type" });
+            let ctx = vec![("reference.kind", "ref-and-base".to_string()), ("reference.target", "own-namespace".to_string()), ("reference.order", order.join(",")), ("element_is_instance_of_same_named_type", idiom.to_string())];
+            out.push((State { label, depth: 2, set: s }, ctx));
+        }
+    }
+    out
+}
+
 /// WSDL: message named Thing, part named Thing, element Thing in the WSDL's and in an imported namespace
 fn wsdl_states() -> Vec<(State, Vec<(&'static str, String)>, String)> {
     let mut out = vec![];
@@ -176,7 +231,8 @@ fn wsdl_states() -> Vec<(State, Vec<(&'static str, String)>, String)> {
 pub fn check(tier: &str) -> i32 {
     let mut rep = Report::new("C09", tier, "model_checking");
     let mut agg = Agg::new();
-    let xs = xsd_states();
+    let mut xs = xsd_states();
+    xs.extend(two_referrer_states());
     let states: Vec<State> = xs.iter().map(|(s, _)| State { label: s.label.clone(), depth: s.depth, set: s.set.clone() }).collect();
     let ran = run_states(&states);
     let mut conformant = 0u64;
@@ -193,7 +249,7 @@ pub fn check(tier: &str) -> i32 {
         }
         let ex = r.extract.as_ref().unwrap().as_ref().unwrap();
         let model = RefModel::build(&st.set);
-        let only = |c: &ExpComp| c.name == "User" || c.name == "UsesOwnB";
+        let only = |c: &ExpComp| c.name == "User" || c.name == "UsesOwnB" || c.name == "BaseUser";
         let vs = compare_api(ex, &model, &ApiCheck { property: "C09", scope: "name-reuse", depth: 1, member_namespaces: true }, Some(&only));
         if vs.is_empty() {
             conformant += 1;
@@ -251,7 +307,7 @@ pub fn check(tier: &str) -> i32 {
     rep.set("traces_validated_against_impl", json!(n));
     rep.set("states_fully_conformant", json!(conformant));
     rep.set("exhaustive", json!(true));
-    rep.set("bound", json!("complete product: reference kind {type=, base=, ref=} x target namespace {own, imported} x prefixing {own prefixes, the prefix tns bound to different URIs in the two files, default namespace, default namespace = imported namespace, each prefix spelling the other namespace's generated abbreviation} x declaration order {before, after use} x decoys {absent, a local element and an attribute named Thing} x {type Thing before element Thing, element first} x {element Thing of an anonymous type, element Thing of type Thing} x {A's Thing carriers independent, built on B's Thing carriers (same local name along the chain)}; WSDL: part element= {WSDL's, imported namespace} x parts {explicit, absent} with message and part named Thing; the imported file also refers to its own Thing through its own prefix"));
+    rep.set("bound", json!("complete product: reference kind {type=, base=, ref=} x target namespace {own, imported} x prefixing {own prefixes, the prefix tns bound to different URIs in the two files, default namespace, default namespace = imported namespace, each prefix spelling the other namespace's generated abbreviation} x declaration order {before, after use} x decoys {absent, a local element and an attribute named Thing} x {type Thing before element Thing, element first} x {element Thing of an anonymous type, element Thing of type Thing} x {A's Thing carriers independent, built on B's Thing carriers (same local name along the chain)}; two referrers of different kinds (ref= and base=) to one name in all 24 declaration orders x 2 element forms; WSDL: part element= {WSDL's, imported namespace} x parts {explicit, absent} with message and part named Thing; the imported file also refers to its own Thing through its own prefix"));
     let _ = tier;
     rep.assume("a carrier is identified by the namespace its struct declares and its unique marker member");
     rep.finish()
